@@ -81,6 +81,19 @@ PROPS: dict[str, dict[str, Any]] = {
                 "one trace",
         "assumptions": ["bounded, not proved: itertools.groupby over a server-side cursor (escaping lazy generators) is outside the verifier's subset"],
     },
+    "C14": {
+        "level": "exploration",
+        "sidecars": [],
+        "bounded": [{"script": "bounded/roundtrip_harness.py", "args": []}],
+        "rule": "bounded stand-in: 24 (thorough 200) seeded multi-workflow trace sets (2-4 traces of 1-4 spans, chain / bushy, span names with inner and "
+                "surrounding white space, unicode, punctuation; workflow names with spaces) x mapping config {default, all seven keys renamed} x {sync, "
+                "async}; through the real entry point otel_to_puml: otel2puml vs otel2pv (saved events) + pv2puml on the saved files; clauses: the saved "
+                "files hold exactly the in-memory stream under the renamed keys, loading inverts saving, and the learned models (events, successor / "
+                "predecessor multisets, counts) of both routes are equal per workflow. Every case is a distinct seeded input; all are non-trivial "
+                "(>= 2 traces)",
+        "assumptions": ["bounded, not proved", "diagram text is not compared: that the diagram is a function of the learned model is C03 (not decided)",
+                        "janus (test_event_generator) is absent: /verif/stubs reproduces GraphSolution.from_event_list from its documented behaviour"],
+    },
     "C15": {
         "level": "exploration",
         "sidecars": [],
